@@ -112,10 +112,10 @@ class QuotientWorld(Scenario):
         self.ls.enable()
         self.QF = QuotientFilter
         uni = cfg["uni"]
-        self.key_hash = {seams.kbytes(seams.key_of(i)): h for i, h in enumerate(uni)}
+        self.key_hash = {seams.key_of(i): h for i, h in enumerate(uni)}  # '' and b'' are distinct keys
 
         def hf(key, seed=0):
-            return self.key_hash.get(seams.kbytes(key), 0x5EED1234)
+            return self.key_hash.get(key, 0x5EED1234)
 
         self.hf = hf
         self.f = QuotientFilter(quotient=cfg["q"], auto_expand=cfg["auto_expand"], hash_function=hf)
